@@ -128,7 +128,7 @@ pub fn main(args: &Args) -> i32 {
         "C16",
         &args.tier,
         args.seed,
-        "definitions from five generators (two-way-fork family built from alternations like a(b|cd)(e|fg) with colliding priorities for graph errors; the core lexing family; the conflict family; subpattern definitions with 2-4 distinct undefined references in one or two patterns; the C19 attribute soup with its malformed and must-reject attributes - diagnostics are output too) x schedules: generate()+captured graph on 8 freshly spawned threads per definition in-process, the whole batch digest recomputed in 3 child processes, logos-cli (tail-call and state-machine builds) run 3 times per sampled definition then written and --check'ed; oracle: byte equality of every output; evaluation = one generate()/CLI run; non-trivial = distinct definitions whose graph has a state with exactly two successors, >= 3 LUT references, or >= 2 graph errors or >= 2 diagnostics (counted once per schedule kind)",
+        "definitions from five generators (two-way-fork family built from alternations like a(b|cd)(e|fg) with colliding priorities for graph errors; the core lexing family; the conflict family; subpattern definitions with 2-4 distinct undefined references in one or two patterns; the C19 attribute soup with its malformed and must-reject attributes - diagnostics are output too) x schedules: generate()+captured graph on 8 freshly spawned threads per definition in-process, the whole batch digest recomputed in 3 child processes, logos-cli (tail-call and state-machine builds) run 3 times per sampled definition then written and --check'ed; plus histories: pairs of subpattern definitions with identical pattern texts and different subpattern bodies, the second expanded after the first on one thread vs on a fresh thread; oracle: byte equality of every output; evaluation = one generate()/CLI run; non-trivial = distinct definitions whose graph has a state with exactly two successors, >= 3 LUT references, or >= 2 graph errors or >= 2 diagnostics (counted once per schedule kind)",
     );
     run.assumptions = vec!["hash seeds are sampled (fresh RandomState keys per thread/process), not enumerated".into()];
     std::panic::set_hook(Box::new(|_| {}));
@@ -139,6 +139,17 @@ pub fn main(args: &Args) -> i32 {
         let src = v["source"].as_str().unwrap().to_string();
         let outs = outputs_in_threads(&src, 24);
         let mut bad = outs.iter().any(|o| *o != outs[0]);
+        if let Some(before) = v["expanded_before"].as_str() {
+            let (b, s2) = (before.to_string(), src.clone());
+            let after = std::thread::spawn(move || {
+                let _ = derive_rust(b);
+                let d = derive_rust(s2);
+                format!("{}\n//GRAPH {}\n//PANIC {:?}", d.output, d.graph.map(|g| format!("{g:?}")).unwrap_or_default(), d.panic)
+            })
+            .join()
+            .unwrap_or_else(|_| "thread panicked".into());
+            bad = bad || after != outs[0];
+        }
         let mut scratch = Run::new("C16", "quick", 0, "");
         if !bad {
             bad = c16_cli(args, &mut scratch, &[src]).is_some();
@@ -184,6 +195,64 @@ pub fn main(args: &Args) -> i32 {
         }
         let d = derive_rust(src.clone());
         digest = digest.rotate_left(7) ^ fnv(d.output.as_bytes()) ^ fnv(format!("{:?}", d.graph).as_bytes());
+    }
+    // histories: the output for a definition must not depend on what the same thread expanded before. Pairs (D, D') share all
+    // pattern texts and differ in the bodies of their subpatterns; D' after D on one thread must equal D' on a fresh thread.
+    {
+        let mut runner = TestRunner::new(Config { rng_seed: RngSeed::Fixed(args.seed ^ 0xC16B), failure_persistence: None, ..Config::default() });
+        let strat = model::gen::subpattern_defs();
+        let pairs = if args.thorough() { 400 } else { 60 };
+        let mut done = 0;
+        let mut tries = 0;
+        while done < pairs && tries < pairs * 6 {
+            tries += 1;
+            let case = strat.new_tree(&mut runner).unwrap().current();
+            if case.must_reject || case.def.subpatterns.is_empty() {
+                continue;
+            }
+            let d1 = case.def.clone();
+            let mut d2 = case.def;
+            for (k, sp) in d2.subpatterns.iter_mut().enumerate() {
+                if sp.lit.bytes {
+                    continue;
+                }
+                let body = ["[0-9]+", "[a-c]x", "k|zz", "\\w"][k % 4];
+                let body = if sp.lit.text == body { "[d-f]+" } else { body };
+                sp.lit = model::spec::LitSpec::str(body);
+                sp.inlined = Some(model::spec::LitSpec::str(body));
+            }
+            let (s1, s2) = (render(&d1), render(&d2));
+            if s1 == s2 {
+                continue;
+            }
+            done += 1;
+            let one = |s: String| {
+                let d = derive_rust(s);
+                format!("{}\n//GRAPH {}\n//PANIC {:?}", d.output, d.graph.map(|g| format!("{g:?}")).unwrap_or_default(), d.panic)
+            };
+            let (a1, a2) = (s1.clone(), s2.clone());
+            let after = std::thread::spawn(move || {
+                let _ = one(a1);
+                one(a2)
+            })
+            .join()
+            .unwrap_or_else(|_| "thread panicked".into());
+            let b2 = s2.clone();
+            let fresh = std::thread::spawn(move || one(b2)).join().unwrap_or_else(|_| "thread panicked".into());
+            run.eval(2);
+            run.count("history_pairs", 1);
+            run.nontrivial(fnv(s2.as_bytes()) ^ 0x5151);
+            if after != fresh {
+                run.violations = 1;
+                report_violation(
+                    "C16",
+                    &args.replay_dir,
+                    &json!({"property": "C16", "tier": "G", "source": s2, "expanded_before": s1, "findings": [{"property": "C16", "what": "the output for a definition depends on what the same thread expanded before it (the same patterns with other subpattern bodies): it differs from the output on a fresh thread"}]}),
+                );
+                run.write_evidence(&args.evidence);
+                return 1;
+            }
+        }
     }
     // child processes
     let exe = std::env::current_exe().unwrap();
